@@ -384,7 +384,7 @@ theorem restart_prints_second_half (E : Env) (cfg : Config) (X : PrintEnv) (read
     simp only [Option.map_eq_some_iff, Prod.mk.injEq] at h
     obtain ⟨p', hp, rfl, rfl, rfl⟩ := h
     unfold restartRunP
-    rw [restart_is_second_half E cfg readGroups unmapped chroms files' o' hs, hp]
+    rw [restart_is_second_half_files E cfg readGroups unmapped chroms files' o' hs, hp]
 
 /-- the two files computed from the ORIGINAL in-memory records of the saving run: per chromosome the loader with the
     verdicts of the run's own resolver, the composite printer, then the merge -/
